@@ -10,7 +10,7 @@ VERIF = os.path.dirname(os.path.dirname(os.path.dirname(os.path.abspath(__file__
 REPO = os.environ.get("H8_REPO", "/repo")
 CACHE = os.path.join(VERIF, ".cache")
 DRIVER = os.path.join(VERIF, "engine", "h8facts", "target", "release", "h8facts")
-BODY_FLOOR = 550  # confirmed: 578 bodies on the pinned tree
+BODY_FLOOR = 400  # 576 bodies on the pinned tree; a de-duplication may remove dozens of handlers, a driver that saw only part of the crate would be far below
 
 
 class FactsError(Exception):
